@@ -16,7 +16,7 @@ use super::{
     TSetIdentifier, TStructIdentifier, TType, ThriftException, ZERO_COPY_THRESHOLD,
     error::ProtocolExceptionKind,
     new_protocol_exception,
-    rw_ext::{ReadExt, WriteExt, read_exact_to_vec, split_to_checked},
+    rw_ext::{ReadExt, WriteExt, checked_container_size, read_exact_to_vec, split_to_checked},
     varint_ext::VarIntProcessor,
 };
 
@@ -1301,7 +1301,8 @@ impl TCompactInputProtocol<&mut Bytes> {
         } else {
             self.read_varint::<u32>()? as i32
         };
-        Ok((element_type, element_count as usize))
+        let element_count = checked_container_size(element_count, self.trans.len())?;
+        Ok((element_type, element_count))
     }
 }
 
@@ -1747,11 +1748,8 @@ impl TInputProtocol for TCompactInputProtocol<&mut Bytes> {
             let key_type = tcompact_get_ttype(((type_header & 0xF0) >> 4).try_into()?)?;
             let val_type = tcompact_get_ttype((type_header & 0x0F).try_into()?)?;
 
-            Ok(TMapIdentifier::new(
-                key_type,
-                val_type,
-                element_count as usize,
-            ))
+            let element_count = checked_container_size(element_count, self.trans.len())?;
+            Ok(TMapIdentifier::new(key_type, val_type, element_count))
         }
     }
 
